@@ -37,6 +37,39 @@ pub fn die_with_parent(c: &mut Command) {
     }
 }
 
+/// How stdin is fed: 0 = one write; k > 0 = in pieces with a pause between them (1: after the first byte,
+/// 2: in the middle, 3: before the last byte, 4: every 7 bytes up to 10 pieces, 5: 64 KiB pieces without
+/// pause). A reader must take everything up to end-of-file however the writer paces it.
+pub static PACE: std::sync::atomic::AtomicUsize = std::sync::atomic::AtomicUsize::new(0);
+
+fn feed(si: &mut std::process::ChildStdin, bytes: &[u8]) {
+    let mode = PACE.load(std::sync::atomic::Ordering::SeqCst);
+    let n = bytes.len();
+    let cuts: Vec<usize> = match mode {
+        0 => vec![],
+        1 => vec![1],
+        2 => vec![n / 2],
+        3 => vec![n.saturating_sub(1)],
+        4 => (1..10).map(|i| i * 7).collect(),
+        _ => (1..=n / 65536).map(|i| i * 65536).collect(),
+    };
+    let mut at = 0usize;
+    for c in cuts.into_iter().filter(|c| *c > 0 && *c < n) {
+        if c <= at {
+            continue;
+        }
+        if si.write_all(&bytes[at..c]).is_err() {
+            return;
+        }
+        let _ = si.flush();
+        at = c;
+        if mode != 5 {
+            std::thread::sleep(std::time::Duration::from_millis(30));
+        }
+    }
+    let _ = si.write_all(&bytes[at..]);
+}
+
 pub fn run_cli(kind: &str, args: &[String], stdin: Option<&str>) -> CliObs {
     use std::os::unix::process::ExitStatusExt;
     let mut c = Command::new(cli_bin(kind));
@@ -46,7 +79,7 @@ pub fn run_cli(kind: &str, args: &[String], stdin: Option<&str>) -> CliObs {
     let mut child = c.spawn().expect("cannot start the jsonlogic binary");
     if let Some(text) = stdin {
         let mut si = child.stdin.take().unwrap();
-        let _ = si.write_all(text.as_bytes());
+        feed(&mut si, text.as_bytes());
         drop(si);
     }
     let out = child.wait_with_output().expect("wait");
@@ -203,7 +236,8 @@ fn nested_text(depth: usize) -> String {
 }
 
 fn judge_cli(ctx: &mut Ctx, sub: &str, kind: &str, args: Vec<String>, stdin: Option<&str>, texts: Option<(&str, &str)>, strict_stdout: bool) -> CliObs {
-    let case = json!({"bin": kind, "argv": args, "stdin": stdin});
+    let pace = PACE.load(std::sync::atomic::Ordering::SeqCst);
+    let case = if pace == 0 { json!({"bin": kind, "argv": args, "stdin": stdin}) } else { json!({"bin": kind, "argv": args, "stdin": stdin, "stdin_pacing": pace}) };
     ctx.tick_external(&case);
     let computed;
     let exp: &LibExpect = match texts {
@@ -341,6 +375,54 @@ pub fn c18(ctx: &mut Ctx) {
                     let rt = format!(r#"{{"-":[{},0]}}"#, text);
                     judge_cli(ctx, "conversion-corpus:rule", kind, vec![rt.clone(), "null".into()], None, Some((&rt, "null")), true);
                 }
+            }
+        }
+        // stdin written in pieces, with pauses: the data is everything up to end-of-file
+        {
+            let big: String = format!("[{}]", (0..40000).map(|i| i.to_string()).collect::<Vec<_>>().join(","));
+            let cases: Vec<(&str, String)> = vec![
+                (r#"{"var":"a"}"#, r#"{"a":41}"#.to_string()), (r#"{"+":[{"var":""},1]}"#, "42".to_string()), (r#"{"cat":[{"var":""},"!"]}"#, r#""héllo wörld""#.to_string()),
+                (r#"{"var":"1"}"#, "[10, 20, 30]\n".to_string()), (r#"{"var":""}"#, "12".to_string()), (r#"{"var":""}"#, "tru".to_string()), (r#"{"var":"39999"}"#, big.clone()),
+                (r#"{"reduce":[{"var":""},{"+":[{"var":"current"},{"var":"accumulator"}]},0]}"#, big),
+            ];
+            for (i, (r, d)) in cases.iter().enumerate() {
+                for mode in 1..=5usize {
+                    if !ctx.mine() {
+                        continue;
+                    }
+                    if (mode == 5) != (d.len() > 65536) && mode == 5 {
+                        continue;
+                    }
+                    ctx.edge();
+                    PACE.store(mode, std::sync::atomic::Ordering::SeqCst);
+                    judge_cli(ctx, "paced-stdin:no-argument", kind, vec![r.to_string()], Some(d), Some((r, d)), true);
+                    if i % 2 == 0 {
+                        judge_cli(ctx, "paced-stdin:dash", kind, vec![r.to_string(), "-".into()], Some(d), Some((r, d)), true);
+                    }
+                    PACE.store(0, std::sync::atomic::Ordering::SeqCst);
+                }
+            }
+        }
+        // texts that are JSON strings spelling JSON (a document encoded twice): a string is a string, as rule
+        // and as data, however it is delivered
+        for (i, v) in crate::alphabet::stringified().into_iter().enumerate() {
+            if !ctx.mine() {
+                continue;
+            }
+            let text = v.to_string();
+            ctx.edge();
+            judge_cli(ctx, "encoded-twice:rule", kind, vec![text.clone(), "null".into()], None, Some((&text, "null")), true);
+            let r = [r#"{"var":""}"#, r#"{"cat":[{"var":""},"!"]}"#, r#"{"===":[{"var":""},{"var":""}]}"#][i % 3];
+            judge_cli(ctx, "encoded-twice:data-argument", kind, vec![r.to_string(), text.clone()], None, Some((r, &text)), true);
+            if i % 2 == 0 {
+                judge_cli(ctx, "encoded-twice:data-stdin", kind, vec![r.to_string()], Some(&text), Some((r, &text)), true);
+            } else {
+                judge_cli(ctx, "encoded-twice:data-stdin-dash", kind, vec![r.to_string(), "-".into()], Some(&text), Some((r, &text)), true);
+            }
+            if i % 5 == 0 {
+                // ... and produced by a first invocation, consumed by a second
+                let o1 = judge_cli(ctx, "encoded-twice:chain:first", kind, vec![r#"{"var":""}"#.into(), text.clone()], None, Some((r#"{"var":""}"#, &text)), true);
+                judge_cli(ctx, "encoded-twice:chain:second", kind, vec![r#"{"cat":[{"var":""},"!"]}"#.into()], Some(&o1.stdout), Some((r#"{"cat":[{"var":""},"!"]}"#, &o1.stdout)), true);
             }
         }
         // large documents on stdin and as argument
@@ -612,6 +694,7 @@ pub fn replay_cli(rec: &Value) -> i32 {
     }
     let args: Vec<String> = case["argv"].as_array().map(|a| a.iter().map(|x| x.as_str().unwrap_or("").to_string()).collect()).unwrap_or_default();
     let stdin = case["stdin"].as_str();
+    PACE.store(case["stdin_pacing"].as_u64().unwrap_or(0) as usize, std::sync::atomic::Ordering::SeqCst);
     let o = run_cli(kind, &args, stdin);
     println!("argv     : {:?}", args);
     println!("stdin    : {:?}", stdin);
